@@ -37,3 +37,9 @@ static void ref_init_all(REF_TP_T *tp)
 {
     ref_init_task_Task.taskpool = (parsec_taskpool_t *)tp; Ex02_Chain_Task_internal_init(NULL, &ref_init_task_Task);
 }
+
+/* make_key of class c: direct calls (no function pointer read from a table indexed symbolically) */
+static parsec_key_t ref_make_key(const REF_TP_T *tp, int c, const parsec_assignment_t *l)
+{
+    (void)c; return __jdf2c_make_key_Task((const parsec_taskpool_t *)tp, l);
+}
